@@ -348,8 +348,16 @@ def r02_3b(ctx):
                             "answer is all(...) / any(...), whatever boxes and areas the subshapes legitimately report, "
                             "and every nested query receives the caller's arguments", floor=4)
     out.exhaustive = True
+    class CurveArg(StandIn):
+        """the curve asked about: its box meets the box of every region (a box says nothing about which component holds it)"""
+
+        def box(self):
+            return FullBox()
+
+        def __repr__(self):
+            return "J"
     specs = [("shape.ConnectedShape._contains_point", all, "P"), ("shape.DisjointShape._contains_point", any, "P"),
-             ("shape.ConnectedShape._contains_jordan", all, "J"), ("shape.DisjointShape._contains_jordan", any, "J")]
+             ("shape.ConnectedShape._contains_jordan", all, CurveArg()), ("shape.DisjointShape._contains_jordan", any, CurveArg())]
     ihook = (lambda rn, ev, c, n, r, a, k: True if n == "isinstance" else NotImplemented)
     for q, agg, arg in specs:
         fn = ctx.fn(q)
